@@ -6,6 +6,8 @@ reference encoding produced by refcodec from a parallel specification tree.
 """
 from __future__ import annotations
 
+import functools
+
 import dataclasses
 import datetime
 import ipaddress
@@ -529,6 +531,74 @@ def _call(job):
     return f(a)
 
 
+# ------------------------------------------------------------------ two threads use the typed codec at once
+
+
+def race_messages():
+    """Two small but structurally rich typed messages: lists, nested containers two levels deep, vendor AVPs."""
+    from diameter.message.commands import CreditControlRequest, AccountingRequest
+    from diameter.message.commands.credit_control import SubscriptionId, MultipleServicesCreditControl, RequestedServiceUnit, UsedServiceUnit
+    from diameter.message.avp.grouped import VendorSpecificApplicationId
+    a = CreditControlRequest()
+    a.session_id = "race;a"
+    a.origin_host = b"a.example.org"
+    a.origin_realm = b"example.org"
+    a.destination_realm = b"example.org"
+    a.auth_application_id = 4
+    a.service_context_id = "ctx@a"
+    a.cc_request_type = 1
+    a.cc_request_number = 7
+    a.subscription_id = [SubscriptionId(subscription_id_type=0, subscription_id_data="491700000001"),
+                         SubscriptionId(subscription_id_type=1, subscription_id_data="262011234567890")]
+    a.multiple_services_credit_control = [MultipleServicesCreditControl(
+        requested_service_unit=RequestedServiceUnit(cc_total_octets=1000), used_service_unit=[UsedServiceUnit(cc_total_octets=5)],
+        service_identifier=[1, 2], rating_group=9)]
+    b = AccountingRequest()
+    b.session_id = "race;b"
+    b.origin_host = b"b.example.org"
+    b.origin_realm = b"example.org"
+    b.destination_realm = b"example.org"
+    b.accounting_record_type = 2
+    b.accounting_record_number = 3
+    b.acct_application_id = 3
+    b.user_name = "bob"
+    b.vendor_specific_application_id = VendorSpecificApplicationId(vendor_id=10415, acct_application_id=3)
+    b.route_record = [b"hop1", b"hop2"]
+    return a, b
+
+
+def race_jobs(kind):
+    """kind: 'enc-enc' | 'dec-dec' | 'enc-dec'."""
+    from diameter.message import Message
+    obj_a, obj_b = race_messages()
+
+    def enc(obj):
+        return obj.as_bytes()
+
+    def dec(wire):
+        m = Message.from_bytes(wire)
+        return type(m).__name__.encode() + b":" + m.as_bytes()
+    if kind == "enc-enc":
+        return [("encode CCR", functools.partial(enc, obj_a)), ("encode ACR", functools.partial(enc, obj_b))]
+    wire_a, wire_b = obj_a.as_bytes(), obj_b.as_bytes()
+    if kind == "dec-dec":
+        return [("decode CCR", functools.partial(dec, wire_a)), ("decode ACR", functools.partial(dec, wire_b))]
+    return [("encode CCR", functools.partial(enc, race_messages()[0])), ("decode ACR", functools.partial(dec, wire_b))]
+
+
+def run_races(rep, tier):
+    from .. import codecrace
+    execs = 0
+    for kind in ("enc-enc", "dec-dec", "enc-dec"):
+        r = codecrace.explore(functools.partial(race_jobs, kind), bound=1, time_cap=300 if tier != "thorough" else 900)
+        execs += r["executions"]
+        for (key, detail), choices in r["violations"]:
+            rep.add(Violation(f"{key}:{kind}", f"[two threads, {kind}, 1 preemption at call granularity] choices {choices}: {detail}", {"race": kind, "choices": choices}))
+        rep.sample({"two_threads": kind, "preemption_bound": 1, "executions": r["executions"], "distinct_outcomes": len(r["outcomes"]),
+                    "branching_points": r["max_points"], "capped": r["capped"]})
+    return execs
+
+
 def run(tier):
     rep = Report("C03", tier, "exploration")
     common.pool()
@@ -542,6 +612,8 @@ def run(tier):
     for n, vs in common.pmap(_call, jobs, chunksize=1):
         total += n
         rep.extend(vs)
+    races = run_races(rep, tier)
+    rep.cov["schedules"] = races
     rep.sample({"message_classes": len(msgs), "container_classes": len(conts), "definitions": ndefs})
     rep.sample({"example": "CreditControlRequest with all attributes set recursively (depth 3) -> bytes == refcodec encoding in avp_def order"})
     rep.cov.update({"evaluations": total, "distinct_nontrivial": total, "programs": len(msgs) + len(conts), "definitions": ndefs,
@@ -554,6 +626,12 @@ def run(tier):
 
 
 def replay(case):
+    if "race" in case:
+        from .. import codecrace, scheddfs
+        jobs = functools.partial(race_jobs, case["race"])
+        names = [n for n, _ in jobs()]
+        obs, ch = scheddfs.replay_choices(functools.partial(codecrace._exec, jobs), case["choices"])
+        return [Violation(f"{k}:{case['race']}", d) for k, d in codecrace._check(names, codecrace.sequential_results(jobs), obs)]
     msgs, conts = all_classes()
     out = []
     for kind, lst in (("msg", msgs), ("cont", conts)):
